@@ -170,6 +170,37 @@ impl Buf for FlickerBuf {
     }
 }
 
+/// A `Buf` that keeps claiming bytes remain after the slice it hands out has run dry (and optionally also answers
+/// `has_remaining()` inconsistently).  Only the first `exposed` bytes are ever handed out; behind them lie markers (0xEE).
+struct StaleBuf {
+    data: Vec<u8>,
+    pos: usize,
+    exposed: usize,
+    claim: usize,
+    calls: std::cell::Cell<usize>,
+}
+impl Buf for StaleBuf {
+    fn remaining(&self) -> usize {
+        let k = self.calls.get();
+        self.calls.set(k + 1);
+        if k > 3000 {
+            panic!("stale: fuel exhausted");
+        }
+        self.claim.saturating_sub(self.pos)
+    }
+    fn chunk(&self) -> &[u8] {
+        let k = self.calls.get();
+        self.calls.set(k + 1);
+        if k > 3000 {
+            panic!("stale: fuel exhausted");
+        }
+        &self.data[self.pos.min(self.exposed)..self.exposed]
+    }
+    fn advance(&mut self, n: usize) {
+        self.pos += n;
+    }
+}
+
 struct LyingIter {
     n: usize,
     lower: usize,
@@ -198,6 +229,7 @@ impl Iterator for LyingIter {
 pub const CONSUMERS: &[&str] = &[
     "copy_to_slice", "try_copy_to_slice", "get_u32", "get_u64_le", "get_uint", "try_get_i128", "get_u8", "copy_to_bytes", "take_copy_to_bytes",
     "chain_copy_to_bytes", "take_chunks_vectored", "chain_chunks_vectored", "bytesmut_put", "vec_put", "slice_put", "split_bytesmut_put",
+    "stale_into_iter", "stale_chain_into_iter", "stale_take_into_iter", "stale_get_u8", "stale_copy_to_slice",
     "flk_get_u16", "flk_get_u32", "flk_get_u64_le", "flk_get_i128", "flk_get_f64", "flk_get_uint", "flk_copy_to_slice", "flk_copy_to_bytes", "flk_chain_get_u64",
     "limit_put", "into_iter", "reader_read", "chain_get_u64", "cursor_copy_to_slice", "cursor_get_u64", "cursor_copy_to_bytes", "cursor_drain",
 ];
@@ -285,6 +317,48 @@ fn consume(name: &str, script: &[Lie], arg: usize) -> Result<String, ()> {
                 format!("{:?}", lb.reader().read(&mut dst).ok())
             }
             "chain_get_u64" => format!("v {}", Buf::chain(&b"ab"[..], lb).get_u64()),
+            n if n.starts_with("stale_") => {
+                // script[0]: rem = claimed length, chunk = bytes really exposed (<= 16), panic_at = start position
+                let l = script.first().copied().unwrap_or(Lie { rem: 0, chunk: 0, panic_at: 0 });
+                let mut data: Vec<u8> = (1..=16u8).collect();
+                data.extend_from_slice(&[0xEE; 48]);
+                let sb = StaleBuf { data, pos: (l.panic_at as usize).min(4), exposed: l.chunk.min(16), claim: l.rem, calls: std::cell::Cell::new(0) };
+                let mut got: Vec<u8> = Vec::new();
+                match n {
+                    "stale_into_iter" => {
+                        for b in bytes::buf::IntoIter::new(sb).take(40) {
+                            got.push(b);
+                        }
+                    }
+                    "stale_chain_into_iter" => {
+                        for b in bytes::buf::IntoIter::new(Buf::chain(sb, &b"\x05"[..])).take(40) {
+                            got.push(b);
+                        }
+                    }
+                    "stale_take_into_iter" => {
+                        for b in bytes::buf::IntoIter::new(sb.take(arg + 1)).take(40) {
+                            got.push(b);
+                        }
+                    }
+                    "stale_get_u8" => {
+                        let mut sb = sb;
+                        for _ in 0..20 {
+                            got.push(sb.get_u8());
+                        }
+                    }
+                    _ => {
+                        let mut sb = sb;
+                        let mut d = vec![0u8; arg.min(40)];
+                        sb.copy_to_slice(&mut d);
+                        got = d;
+                    }
+                }
+                if got.iter().any(|b| *b == 0xEE) {
+                    format!("OOB-READ bytes from behind the slice chunk() returned reached the caller: {}", hex(&got[..got.len().min(24)]))
+                } else {
+                    format!("len {}", got.len())
+                }
+            }
             n if n.starts_with("flk_") => {
                 // script[0]: rem = which chunk() call is short, chunk = its length, panic_at = start position
                 let l = script.first().copied().unwrap_or(Lie { rem: 0, chunk: 0, panic_at: 0 });
@@ -403,6 +477,9 @@ pub fn run(args: &[String]) -> i32 {
     for i in 0..n {
         let name = CONSUMERS[i % CONSUMERS.len()];
         let mut script = gen_script(&mut rng);
+        if name.starts_with("stale_") {
+            script = vec![Lie { rem: *rng.pick(&[0usize, 3, 8, 16, 17, 40, 5000]), chunk: *rng.pick(&[0usize, 1, 4, 8, 16]), panic_at: *rng.pick(&[0u8, 0, 1, 3]) }];
+        }
         if name.starts_with("flk_") {
             script = vec![Lie { rem: rng.below(4) as usize, chunk: *rng.pick(&[0usize, 1, 3, 7]), panic_at: *rng.pick(&[0u8, 0, 1, 5]) }];
         }
